@@ -2,7 +2,7 @@
    Proofs/SettingsValue.v transferred to the reference-heap model (the one Model/C19Run.v evaluates
    on the real library's observations) by the refinement theorem of Proofs/SettingsSim.v. *)
 From Coq Require Import List Arith Bool Lia String.
-From ReqV Require Import Model.Settings Model.LiveSel Model.Handshake Gen.CloneTable Proofs.SettingsHeap Proofs.SettingsValue Proofs.SettingsSim.
+From ReqV Require Import Model.Settings Model.LiveSel Model.Handshake Model.DumpCtx Gen.CloneTable Proofs.SettingsHeap Proofs.SettingsValue Proofs.SettingsSim.
 Import ListNotations.
 
 Lemma gen_tbl_deep : gen_tbl = deep_tbl.
@@ -200,3 +200,9 @@ Lemma stale_hook_refuted :
   let s := fold_left (happly t) [HSetFinger 1; HSetCustom 7] hstate0 in
   hs_fn s = HCustom 7 /\ hs_fn (hclone t s) = HFinger 1.
 Proof. split; reflexivity. Qed.
+
+(* ---------- request-level dump and inherited contexts ---------- *)
+Lemma own_dump_governs : forall inherited own, deffective (denable gen_dump inherited own) = own.
+Proof. reflexivity. Qed.
+Lemma early_return_dump_refuted : deffective (denable {| d_always_pushes := false |} [7] 3) = 7.
+Proof. reflexivity. Qed.
